@@ -132,6 +132,19 @@ func sameKeyValue(a, b ssa.Value) bool {
 	if !ok || !ok2 || la.Op != token.MUL || lb.Op != token.MUL {
 		return false
 	}
+	if ga, isG := la.X.(*ssa.Global); isG {
+		// two loads of one package variable, which the function does not assign
+		if lb.X != ssa.Value(ga) || la.Parent() != lb.Parent() {
+			return false
+		}
+		assigned := false
+		ssau.Instrs(la.Parent(), func(in ssa.Instruction) {
+			if st, isSt := in.(*ssa.Store); isSt && st.Addr == ssa.Value(ga) {
+				assigned = true
+			}
+		})
+		return !assigned
+	}
 	fa, ok := la.X.(*ssa.FieldAddr)
 	fb, ok2 := lb.X.(*ssa.FieldAddr)
 	if !ok || !ok2 || fa.Field != fb.Field || fa.X != fb.X || la.Parent() != lb.Parent() {
